@@ -401,6 +401,10 @@ def run(ctx):
     kmax = ctx.n(2, 3)
     scheds += gen_exhaustive(kmax)
     scheds += gen_random(g, ctx.n(1200, 6000), 20, 120)
+    # boot() that cannot create its thread: commands and wait() on a filter without filtering thread
+    for k in range(3):
+        for cmds in itertools.product(CMDS, repeat=k):
+            scheds.append((["F"] + list(cmds), "bootfail", [list(cmds)[0]] if cmds else []))
     # schedule point 6 (inside reboot()) is a proposed hook: used when the tree under test has it
     probe, _ = vlib.run_harness(binary, ["life 5000 b1 b2"])
     have6 = not probe[0].startswith("b1:nohook")
